@@ -29,6 +29,8 @@ SortedEventOK(e) ==
        /\ IF e.kind = "zo_from_strings" THEN SortedDistinctOK(e.input, e.r)
           ELSE IF e.kind = "sortable_sort_by_rev" THEN DescSorted(e.r) /\ IsPermutation(e.input, e.r)
           ELSE IF e.kind = "sortable_sort_by_len" THEN LenSorted(e.r) /\ IsPermutation(e.input, e.r)
+          ELSE IF e.kind = "sortable_sort_by_numeric"           \* the caller's order is decimal_strcmp: ascending by value
+               THEN (\A i \in 1..(Len(e.r) - 1) : Num!ValueCmp(e.r[i], e.r[i + 1]) <= 0) /\ IsPermutation(e.input, e.r)
           ELSE SortedEnumOK(e.input, e.r)
 
 (* lexicographic_iterator::utils: collect_all, find_common_prefix, count_with_prefix (Err = refused) *)
